@@ -39,6 +39,8 @@ type Ev struct {
 	M       *int      `json:"m,omitempty"`
 	Illegal *bool     `json:"illegal,omitempty"`
 	Pos     *proj.Pos `json:"pos,omitempty"`
+	ZNames  *[]string `json:"znames,omitempty"`
+	ZKeys   *[]string `json:"zkeys,omitempty"`
 	Want    *proj.Pos `json:"want,omitempty"` // load: what the FEN text denotes (the harness's own reading)
 	Legal   *[]int    `json:"legal,omitempty"`
 	Gen     *[]int    `json:"gen,omitempty"`
@@ -438,6 +440,81 @@ func (r *rec) positions(corpus []string, rawEp bool) {
 
 // walk: nested make ... undo sequences over ALL pseudo-legal moves (illegal ones are made and
 // immediately undone, as the search does), null moves where the mover is not in check.
+// zkeys derives every Zobrist key the hash is made of from hashes of positions that differ in exactly one
+// feature (a man on a square, the side to move, one castling right, the en-passant file) and logs them by name:
+// the keys of different features must differ (GameModel.tla treats the hash as the SET of features).
+func (r *rec) zkeys() {
+	h := func(fen string) uint64 {
+		b, err := board.FromFEN(fen)
+		if err != nil {
+			panic("zkeys: " + fen + ": " + err.Error())
+		}
+		return uint64(b.Hash())
+	}
+	var names, keys []string
+	add := func(n string, k uint64) {
+		names = append(names, n)
+		keys = append(keys, fmt.Sprintf("%016x", k))
+	}
+	place := func(bd []int) string { return gen.FEN(bd, 0, 0, -1, 0, 1) }
+	// two king set-ups so that every square is free in one of them
+	for _, ks := range [][2]int{{4, 60}, {0, 63}} {
+		base := make([]int, 64)
+		base[ks[0]], base[ks[1]] = 6, 14
+		h0 := h(place(base))
+		for pc := 1; pc <= 13; pc++ {
+			if pc == 6 || pc == 7 || pc == 8 {
+				continue
+			}
+			for sq := 0; sq < 64; sq++ {
+				if base[sq] != 0 || (ks[0] == 0 && sq != 4 && sq != 60) {
+					continue // second set-up: only the squares the first one could not offer
+				}
+				if pc%8 == 1 && (sq/8 == 0 || sq/8 == 7) {
+					continue
+				}
+				bd := append([]int{}, base...)
+				bd[sq] = pc
+				add(fmt.Sprintf("piece-%d-on-%d", pc, sq), h(place(bd))^h0)
+			}
+		}
+	}
+	// kings, relative to the king on e1 / e8
+	for c := 0; c < 2; c++ {
+		base := make([]int, 64)
+		base[4], base[60] = 6, 14
+		h0 := h(place(base))
+		for sq := 0; sq < 64; sq++ {
+			other := []int{60, 4}[c]
+			if sq == []int{4, 60}[c] || (abs(sq%8-other%8) <= 1 && abs(sq/8-other/8) <= 1) {
+				continue
+			}
+			bd := make([]int, 64)
+			bd[other] = []int{14, 6}[c]
+			bd[sq] = []int{6, 14}[c]
+			add(fmt.Sprintf("king-%d-on-%d-rel", c, sq), h(place(bd))^h0)
+		}
+	}
+	add("side-to-move", h("4k3/8/8/8/8/8/8/4K3 b - - 0 1")^h("4k3/8/8/8/8/8/8/4K3 w - - 0 1"))
+	cb := h("r3k2r/8/8/8/8/8/8/R3K2R w - - 0 1")
+	for _, c := range []string{"K", "Q", "k", "q"} {
+		add("castling-"+c, h("r3k2r/8/8/8/8/8/8/R3K2R w "+c+" - 0 1")^cb)
+	}
+	for f := 0; f < 8; f++ {
+		bd := make([]int, 64)
+		bd[4], bd[60] = 6, 14
+		if f == 4 {
+			bd[4], bd[0] = 0, 6
+		}
+		bd[24+f] = 1
+		without := gen.FEN(bd, 1, 0, -1, 0, 1)
+		with := gen.FEN(bd, 1, 0, 16+f, 0, 1)
+		add(fmt.Sprintf("en-passant-file-%d", f), h(with)^h(without))
+	}
+	r.t++
+	r.emit(&Ev{Ev: "zkeys", ZNames: &names, ZKeys: &keys})
+}
+
 // marathon: one very long legal game (more than 2,048 plies, an irreversible move well before the clock
 // reaches 100), a make/undo and a null make/undo at every ply from 2,000 on, then the whole game taken back
 func (r *rec) marathon() {
@@ -1368,6 +1445,8 @@ func main() {
 		r.ucimoves(corpus)
 	case "reevent":
 		r.reevent(*in)
+	case "zkeys":
+		r.zkeys()
 	case "list":
 		r.list(corpus)
 	case "enum":
@@ -1410,4 +1489,11 @@ func main() {
 		panic("unknown mode")
 	}
 	fmt.Fprintln(os.Stderr, "events", r.n, "traces", r.t)
+}
+
+func abs(x int) int {
+	if x < 0 {
+		return -x
+	}
+	return x
 }
